@@ -191,6 +191,8 @@ func (c PipeCfg) options() []expr.Option {
 		ops = append(ops, expr.ConstExpr("I"))
 	case "panicking":
 		ops = append(ops, expr.ConstExpr("Boom"))
+	case "nilmember":
+		ops = append(ops, expr.ConstExpr("Nil"))
 	}
 	switch c.Patch {
 	case "identity":
